@@ -439,3 +439,152 @@ func TestVerifC11(t *testing.T) {
 	open := vlib.OpenFindings()
 	vlib.Check(t, "C11", func(rt *rapid.T, c *vlib.Case) { c11Prop(rt, c, t, open) })
 }
+
+// veQuickManager starts a free-running manager holding n one-datagram UDP streams.
+func veQuickManager(n int, convs []string) (*veEngine, func(), error) {
+	base, err := os.MkdirTemp("", "vefix-")
+	if err != nil {
+		return nil, nil, err
+	}
+	d, err := veMakeDirs(base)
+	if err != nil {
+		return nil, nil, err
+	}
+	if len(convs) != 0 {
+		if err := veInstallConverters(d, convs); err != nil {
+			return nil, nil, err
+		}
+	}
+	tr := &veTraffic{Base: time.Date(2024, 1, 2, 13, 0, 0, 0, time.UTC)}
+	for i := 0; i < n; i++ {
+		tr.Flows = append(tr.Flows, veFlow{Client: "10.0.0.1", Server: "10.0.0.2", CPort: uint16(1000 + i), SPort: 80})
+		tr.Packets = append(tr.Packets, vePacket{Flow: i, Off: time.Duration(i+1) * time.Second, Payload: "aa"})
+	}
+	tr.Cuts = []int{0, len(tr.Packets)}
+	e, err := veStart(d, true)
+	if err != nil {
+		os.RemoveAll(base)
+		return nil, nil, err
+	}
+	cleanup := func() { e.close(); os.RemoveAll(base) }
+	if n > 0 {
+		name, err := tr.writeCapture(d, 0)
+		if err != nil {
+			cleanup()
+			return nil, nil, err
+		}
+		e.mgr.ImportPcaps([]string{name})
+		deadline := time.Now().Add(30 * time.Second)
+		for {
+			st := e.mgr.Status()
+			if st.ImportJobCount == 0 && st.StreamCount == n {
+				break
+			}
+			if time.Now().After(deadline) {
+				cleanup()
+				return nil, nil, fmt.Errorf("import did not finish")
+			}
+			time.Sleep(2 * time.Millisecond)
+		}
+	}
+	return e, cleanup, nil
+}
+
+// c11Fixed runs one hand-written history; each step is (description, call, wantError).
+func c11FixedCase(name string) (string, any) {
+	type step struct {
+		desc    string
+		f       func(m *Manager) error
+		wantErr bool
+	}
+	var steps []step
+	streams := 2
+	convs := []string{"cva"}
+	post := func(e *veEngine) string { return "" }
+	switch name {
+	case "F-C11-update-missing-ref":
+		steps = []step{
+			{"AddTag tag/a", func(m *Manager) error { return m.AddTag("tag/a", "#fff", "cport:1000") }, false},
+			{"UpdateTag tag/a query=tag:missing", func(m *Manager) error { return m.UpdateTag("tag/a", UpdateTagOperationUpdateQuery("tag:missing")) }, true},
+		}
+	case "F-C11-update-cycle":
+		steps = []step{
+			{"AddTag tag/a", func(m *Manager) error { return m.AddTag("tag/a", "#fff", "cport:1000") }, false},
+			{"AddTag tag/b=tag:a", func(m *Manager) error { return m.AddTag("tag/b", "#fff", "tag:a") }, false},
+			{"UpdateTag tag/a query=tag:b", func(m *Manager) error { return m.UpdateTag("tag/a", UpdateTagOperationUpdateQuery("tag:b")) }, true},
+		}
+	case "F-C11-mark-stream0":
+		steps = []step{
+			{"AddTag mark/m=id:1", func(m *Manager) error { return m.AddTag("mark/m", "#fff", "id:1") }, false},
+			{"markadd [0]", func(m *Manager) error { return m.UpdateTag("mark/m", UpdateTagOperationMarkAddStream([]uint64{0})) }, false},
+		}
+		post = func(e *veEngine) string {
+			tags, _, err := c11State(e)
+			if err != nil {
+				return err.Error()
+			}
+			if got := fmt.Sprint(sortedKeys(tags["mark/m"].matches)); got != "[0 1]" {
+				return "after marking stream 0 the marked streams are " + got + ", want [0 1]"
+			}
+			return ""
+		}
+	case "F-C11-setconverter-partial":
+		steps = []step{
+			{"AddTag tag/a", func(m *Manager) error { return m.AddTag("tag/a", "#fff", "cport:1000") }, false},
+			{"attach cva", func(m *Manager) error { return m.UpdateTag("tag/a", UpdateTagOperationSetConverter([]string{"cva"})) }, false},
+			{"set converters [nope]", func(m *Manager) error { return m.UpdateTag("tag/a", UpdateTagOperationSetConverter([]string{"nope"})) }, true},
+		}
+		post = func(e *veEngine) string {
+			tags, _, err := c11State(e)
+			if err != nil {
+				return err.Error()
+			}
+			if got := fmt.Sprint(tags["tag/a"].converters); got != "[cva]" {
+				return "the rejected converter update changed the attached converters to " + got
+			}
+			return ""
+		}
+	case "F-C11-generated-nonid-query":
+		steps = []step{
+			{"AddTag tag/a", func(m *Manager) error { return m.AddTag("tag/a", "#fff", "cport:1000") }, false},
+			{"AddTag generated/g=id:0", func(m *Manager) error { return m.AddTag("generated/g", "#fff", "id:0") }, false},
+			{"UpdateTag generated/g query=-tag:a", func(m *Manager) error { return m.UpdateTag("generated/g", UpdateTagOperationUpdateQuery("-tag:a")) }, true},
+		}
+	default:
+		return "unknown fixed case", name
+	}
+	e, cleanup, err := veQuickManager(streams, convs)
+	if err != nil {
+		return "setup: " + err.Error(), name
+	}
+	defer cleanup()
+	var hist []string
+	for _, s := range steps {
+		callErr, hung := c11Call(func() error { return s.f(e.mgr) })
+		if hung {
+			return s.desc + " did not return within 15s (service hangs)", hist
+		}
+		hist = append(hist, fmt.Sprintf("%s -> %v", s.desc, callErr))
+		if (callErr != nil) != s.wantErr {
+			return fmt.Sprintf("%s returned %v, want error=%v", s.desc, callErr, s.wantErr), hist
+		}
+		if _, hung := c11Call(func() error { e.mgr.Status(); return nil }); hung {
+			return "after " + s.desc + " the service no longer answers", hist
+		}
+		tags, _, err := c11State(e)
+		if err != nil {
+			return err.Error(), hist
+		}
+		if msg := c11Graph(tags); msg != "" {
+			return "after " + s.desc + ": " + msg, hist
+		}
+	}
+	if msg := post(e); msg != "" {
+		return msg, hist
+	}
+	return "", nil
+}
+
+func TestVerifC11Fixed(t *testing.T) {
+	vlib.Fixed(t, "C11", []string{"F-C11-update-missing-ref", "F-C11-update-cycle", "F-C11-mark-stream0", "F-C11-setconverter-partial", "F-C11-generated-nonid-query"}, c11FixedCase)
+}
